@@ -1250,6 +1250,12 @@ func TestVerifC15(t *testing.T) {
 		})
 	}
 
+	run.OneCase(vlib.FixedBase+900, func(c *vlib.Case) {
+		defer func() { outputSink = nil }()
+		c.Begin(map[string]interface{}{"fixed": "caller-side allocation probes"})
+		env.checkCallers(c)
+	})
+
 	// facets that are the point of this harness (only judged when this process
 	// ran its whole share of the case list, not for a replay of one case)
 	if run.From == 0 && run.To < 0 && !run.Replay {
